@@ -59,6 +59,18 @@ def c_findTm(chk):
     paths = sel(chk.summarize(MODULE, "HydrodynamicsTemplateModel._findTm", mk))
     if not paths:
         chk.undecided.append("_findTm: no returning path")
+    from wgvc.crosscheck import Cross
+
+    def sample(rnd):
+        return {"vm": rnd.uniform(0.05, 0.9), "vp": rnd.uniform(0.05, 0.9), "Tp": rnd.uniform(0.5, 50), "Tnucl": rnd.uniform(0.5, 50),
+                "mu": rnd.uniform(3.5, 4.5), "nu": rnd.uniform(3.5, 4.5), "psiN": rnd.uniform(0.5, 1.0), "wN": 1.0, "cb": 0.5, "alN": 0.1,
+                "cs2": 0.3, "cs": 0.55, "pN": 1.0}
+
+    def scenario(env):
+        attrs = {k: env[k] for k in ("mu", "nu", "psiN", "Tnucl")}
+        return {"module": "WallGo.hydrodynamicsTemplateModel", "method": "_findTm", "args": [env["vm"], env["vp"], env["Tp"]],
+                "self": {"__stub__": "real", "module": "WallGo.hydrodynamicsTemplateModel", "class": "HydrodynamicsTemplateModel", "attrs": attrs}}
+    chk.cross(Cross("HydrodynamicsTemplateModel._findTm", paths, sample, scenario))
     for i, p in enumerate(paths):
         Tm = p.value
         chk.vc(f"_findTm.energy-flux-equal.{i}", p.pc, Eq(wH(Tp) * gammaSq(vp) * vp, wL(Tm) * gammaSq(vm) * vm), func=fn)
